@@ -26,6 +26,28 @@ func checkC08(c *Ctx) {
 	r083(c)
 	r084(c, "R08.4 error-page-nesting")
 	r085(c)
+	r086(c)
+}
+
+// R08.6 resume can restore forwarding only if the drain performed by stop (and pause) left the targets usable.
+func r086(c *Ctx) {
+	const rule = "R08.6 drain-leaves-targets-usable"
+	c.floor(rule, 2)
+	fn := c.method("Target", "Drain")
+	upd := c.method("Target", "updateState")
+	draining := c.enumVal(c.server, "TargetStateDraining")
+	var mark *ssa.Call
+	for _, cs := range callsTo(fn, upd) {
+		if call, ok := cs.instr.(*ssa.Call); ok {
+			if k, ok := constInt(call.Call.Args[1]); ok && k == draining {
+				mark = call
+			}
+		}
+	}
+	if !c.ob(rule, "Drain/marks-draining", fn.Pos(), mark != nil, true, "Drain must call updateState(TargetStateDraining)") {
+		return
+	}
+	drainRestores(c, rule, fn, upd, mark, draining)
 }
 
 // uses of a value, transitively through conversions / interface boxing
